@@ -1,4 +1,4 @@
-(* C15 -- BigRat::from_f64: exact description of what the saturating cast
+(* C15 -- BigRat::from_f64_old: exact description of what the saturating cast
    does.  No real numbers: a binary64 value is the dyadic rational fl_valQ. *)
 From FendV Require Import Base.Prelude Elem.Bridge.
 From Coq Require Import QArith Qabs Lia.
@@ -51,7 +51,7 @@ Proof.
 Qed.
 
 (* ------------------------------------------------------------------ *)
-(* from_f64 on a finite, non-negative, non-saturating value *)
+(* from_f64_old on a finite, non-negative, non-saturating value *)
 
 Definition u64_max_pos : positive := 18446744073709551615.
 
@@ -59,11 +59,11 @@ Lemma u64_max_val : u64_max = Npos u64_max_pos.
 Proof. reflexivity. Qed.
 
 Lemma from_f64_unfold : forall s m e,
-  from_f64 (FFin s m e) =
+  from_f64_old (FFin s m e) =
   let i := f64_to_u128_scaled (FFin s m e) in
   Qmake (sgnZ (s && negb (m =? 0)%N) (i mod 2 ^ 64 + i / 2 ^ 64 * u64_max)%N) u64_max_pos.
 Proof.
-  intros s m e. unfold from_f64, from_f64_parts. cbn [fl_is_neg].
+  intros s m e. unfold from_f64_old, from_f64_parts_old. cbn [fl_is_neg].
   rewrite u64_max_val at 2. unfold mkQ, sgnZ.
   destruct (s && negb (m =? 0)%N); reflexivity.
 Qed.
@@ -162,7 +162,7 @@ Qed.
 
 Theorem from_f64_error_pos : forall m e,
   fl_saturates (FFin false m e) = false ->
-  (Qabs (from_f64 (FFin false m e) - fl_valQ (FFin false m e)) <= 1 # (Z.to_pos (2 ^ 64)))%Q.
+  (Qabs (from_f64_old (FFin false m e) - fl_valQ (FFin false m e)) <= 1 # (Z.to_pos (2 ^ 64)))%Q.
 Proof.
   intros m e Hsat.
   destruct (scaled_cases m e Hsat) as [v [r [K [Hv [HK [Hr [Hi HV]]]]]]].
@@ -180,7 +180,7 @@ Qed.
 (* signs *)
 
 Lemma from_f64_neg : forall m e, (m =? 0)%N = false ->
-  from_f64 (FFin true m e) = Qopp (from_f64 (FFin false m e)).
+  from_f64_old (FFin true m e) = Qopp (from_f64_old (FFin false m e)).
 Proof.
   intros m e Hm. rewrite !from_f64_unfold. cbv zeta. rewrite Hm.
   simpl (true && negb false)%bool. simpl (false && negb false)%bool.
@@ -195,7 +195,7 @@ Proof.
   - unfold Qeq, Qopp. cbn [Qnum Qden]. ring.
 Qed.
 
-Lemma from_f64_zero : forall s e, (from_f64 (FFin s 0 e) == 0)%Q.
+Lemma from_f64_zero : forall s e, (from_f64_old (FFin s 0 e) == 0)%Q.
 Proof.
   intros s e. rewrite from_f64_unfold. cbv zeta. unfold f64_to_u128_scaled.
   assert (H : (if 0 <=? e + 64 then (0 * 2 ^ Z.to_N (e + 64))%N else (0 / 2 ^ Z.to_N (- (e + 64)))%N) = 0%N).
@@ -210,17 +210,17 @@ Qed.
 
 (* every finite f64 below 2^64 in magnitude converts with an absolute error
    of at most 2^-64 (the property only needs 1e-9) *)
-Theorem from_f64_error_lemma : forall s m e,
+Theorem from_f64_old_error_lemma : forall s m e,
   fl_saturates (FFin s m e) = false ->
-  (Qabs (from_f64 (FFin s m e) - fl_valQ (FFin s m e)) <= 1 # (Z.to_pos (2 ^ 64)))%Q.
+  (Qabs (from_f64_old (FFin s m e) - fl_valQ (FFin s m e)) <= 1 # (Z.to_pos (2 ^ 64)))%Q.
 Proof.
   intros s m e Hsat. destruct s.
   - destruct (m =? 0)%N eqn:Hm.
     + apply N.eqb_eq in Hm. subst m.
       rewrite from_f64_zero, fl_valQ_zero. discriminate.
     + rewrite from_f64_neg by exact Hm. rewrite fl_valQ_neg.
-      setoid_replace (- from_f64 (FFin false m e) - - fl_valQ (FFin false m e))%Q
-        with (- (from_f64 (FFin false m e) - fl_valQ (FFin false m e)))%Q by ring.
+      setoid_replace (- from_f64_old (FFin false m e) - - fl_valQ (FFin false m e))%Q
+        with (- (from_f64_old (FFin false m e) - fl_valQ (FFin false m e)))%Q by ring.
       rewrite Qabs_opp. apply from_f64_error_pos. exact Hsat.
   - apply from_f64_error_pos. exact Hsat.
 Qed.
@@ -276,9 +276,9 @@ Proof.
       change (2 ^ 128) with (2 ^ 64 * 2 ^ 64). rewrite Hsplit in HMge. nia.
 Qed.
 
-Theorem from_f64_saturation_lemma : forall s m e,
+Theorem from_f64_old_saturation_lemma : forall s m e,
   fl_saturates (FFin s m e) = true ->
-  (from_f64 (FFin s m e) == inject_Z (sgnZ s (2 ^ 64)%N))%Q.
+  (from_f64_old (FFin s m e) == inject_Z (sgnZ s (2 ^ 64)%N))%Q.
 Proof.
   intros s m e Hsat. rewrite from_f64_unfold. cbv zeta.
   rewrite (scaled_saturates s m e Hsat).
@@ -291,8 +291,66 @@ Proof.
   rewrite Hm. rewrite Bool.andb_true_r. apply from_f64_of_u128_max.
 Qed.
 
-Lemma from_f64_inf : forall s, (from_f64 (FInf s) == inject_Z (sgnZ s (2 ^ 64)%N))%Q.
+Lemma from_f64_old_inf : forall s, (from_f64_old (FInf s) == inject_Z (sgnZ s (2 ^ 64)%N))%Q.
 Proof. intro s. destruct s; vm_compute; reflexivity. Qed.
 
-Lemma from_f64_nan : (from_f64 FNaN == 0)%Q.
+Lemma from_f64_old_nan : (from_f64_old FNaN == 0)%Q.
 Proof. vm_compute. reflexivity. Qed.
+
+
+(* ------------------------------------------------------------------ *)
+(* BigRat::from_f64 since fix commit d752faf: total description *)
+
+Lemma saturates_nonzero : forall s m e, fl_saturates (FFin s m e) = true -> (m =? 0)%N = false.
+Proof.
+  intros s m e Hsat. apply N.eqb_neq. intro Hc. subst m. unfold fl_saturates in Hsat.
+  apply N.leb_le in Hsat.
+  assert (Hz : (if 0 <=? e then (0 * 2 ^ Z.to_N e)%N else (0 / 2 ^ Z.to_N (- e))%N) = 0%N).
+  { destruct (0 <=? e); [reflexivity|]. apply N.div_0_l. apply N.pow_nonzero. discriminate. }
+  rewrite Hz in Hsat. vm_compute in Hsat. contradiction.
+Qed.
+
+(* 2^64 and above: converted exactly *)
+Theorem from_f64_exact_above_lemma : forall s m e,
+  fl_saturates (FFin s m e) = true ->
+  exists v, from_f64 (FFin s m e) = Ok v /\ (v == fl_valQ (FFin s m e))%Q.
+Proof.
+  intros s m e Hsat. pose proof (saturates_nonzero s m e Hsat) as Hm.
+  unfold from_f64, from_f64_parts. rewrite Hsat. cbn [fl_is_neg]. rewrite Hm.
+  rewrite Bool.andb_true_r.
+  destruct (Z.leb_spec 0 e) as [He|He]; cbn [bind].
+  - eexists. split; [reflexivity|]. unfold fl_valQ.
+    destruct (Z.leb_spec 0 e); [|lia].
+    unfold mkQ, sgnZ, Qeq, inject_Z. cbn [Qnum Qden].
+    rewrite N2Z.inj_mul, N2Z.inj_pow, Z2N.id by lia. change (Z.of_N 2) with 2.
+    destruct s; ring.
+  - eexists. split; [reflexivity|]. unfold fl_valQ.
+    destruct (Z.leb_spec 0 e); [lia|].
+    assert (Hp : 0 < 2 ^ (- e)) by (apply pow2_pos; lia).
+    unfold mkQ.
+    assert (Hpn : (2 ^ Z.to_N (- e))%N = Npos (Z.to_pos (2 ^ (- e)))).
+    { apply N2Z.inj. rewrite N2Z.inj_pow, Z2N.id by lia. change (Z.of_N 2) with 2.
+      simpl Z.of_N. rewrite Z2Pos.id by lia. reflexivity. }
+    rewrite Hpn. unfold sgnZ, Qeq. cbn [Qnum Qden]. destruct s; reflexivity.
+Qed.
+
+(* every finite f64: a value, within 2^-64 of the f64 (exactly it from 2^64 on) *)
+Theorem from_f64_total_lemma : forall s m e,
+  exists v, from_f64 (FFin s m e) = Ok v /\
+            (Qabs (v - fl_valQ (FFin s m e)) <= 1 # (Z.to_pos (2 ^ 64)))%Q.
+Proof.
+  intros s m e. destruct (fl_saturates (FFin s m e)) eqn:Hsat.
+  - destruct (from_f64_exact_above_lemma s m e Hsat) as [v [Hv Hq]].
+    exists v. split; [exact Hv|]. rewrite Hq.
+    setoid_replace (fl_valQ (FFin s m e) - fl_valQ (FFin s m e))%Q with 0%Q by ring.
+    discriminate.
+  - exists (from_f64_old (FFin s m e)). split.
+    + unfold from_f64, from_f64_parts. rewrite Hsat. cbn [bind].
+      unfold from_f64_old. destruct (from_f64_parts_old (FFin s m e)) as [[a b] c]. reflexivity.
+    + apply from_f64_old_error_lemma. exact Hsat.
+Qed.
+
+(* infinities and NaN: an error, never a number *)
+Theorem from_f64_nonfinite_lemma :
+  from_f64 FNaN = Err EOther /\ forall s, from_f64 (FInf s) = Err EOther.
+Proof. split; [reflexivity|intro s; reflexivity]. Qed.
